@@ -42,11 +42,11 @@ static void dumpAny(const codec::BinaryCodec* v, std::vector<std::string>& out);
 	// inline packets are declared before their owners by the generator; order by dependency is
 	// not needed for function prototypes
 	for _, fp := range flat {
-		fmt.Fprintf(&b, "static void build_%s(Toks& tk, %s& o);\nstatic void dump_%s(const %s& o, std::vector<std::string>& out);\n", fp.P.Name, fp.P.Name, fp.P.Name, fp.P.Name)
+		fmt.Fprintf(&b, "static void build_%s(Toks& tk, %s& o);\nstatic void dump_%s(const %s& o, std::vector<std::string>& out);\n", fp.P.Name, strcase.ToCamel(fp.P.Name), fp.P.Name, strcase.ToCamel(fp.P.Name))
 	}
 	for _, fp := range flat {
 		k := fp.P
-		fmt.Fprintf(&b, "static void build_%s(Toks& tk, %s& o) {\n", k.Name, k.Name)
+		fmt.Fprintf(&b, "static void build_%s(Toks& tk, %s& o) {\n", k.Name, strcase.ToCamel(k.Name))
 		for _, f := range k.Fields {
 			m := "o." + strcase.ToLowerCamel(f.Name)
 			switch f.Kind {
@@ -84,7 +84,7 @@ static void dumpAny(const codec::BinaryCodec* v, std::vector<std::string>& out);
 			}
 		}
 		b.WriteString("}\n")
-		fmt.Fprintf(&b, "static void dump_%s(const %s& o, std::vector<std::string>& out) {\n", k.Name, k.Name)
+		fmt.Fprintf(&b, "static void dump_%s(const %s& o, std::vector<std::string>& out) {\n", k.Name, strcase.ToCamel(k.Name))
 		for _, f := range k.Fields {
 			m := "o." + strcase.ToLowerCamel(f.Name)
 			one := func(x string) string {
@@ -125,18 +125,18 @@ static void dumpAny(const codec::BinaryCodec* v, std::vector<std::string>& out);
 	}
 	b.WriteString("static std::unique_ptr<codec::BinaryCodec> buildAny(Toks& tk) {\n  std::string name = tk.next();\n")
 	for _, k := range p.Packets {
-		fmt.Fprintf(&b, "  if (name == %q) { auto o = std::make_unique<%s>(); build_%s(tk, *o); return o; }\n", k.Name, k.Name, k.Name)
+		fmt.Fprintf(&b, "  if (name == %q) { auto o = std::make_unique<%s>(); build_%s(tk, *o); return o; }\n", k.Name, strcase.ToCamel(k.Name), k.Name)
 	}
 	b.WriteString("  throw std::runtime_error(\"packet \" + name);\n}\n")
 	b.WriteString("static std::unique_ptr<codec::BinaryCodec> newAny0(const std::string& name);\nstatic bool reuse = false;\nstatic std::map<std::string, std::unique_ptr<codec::BinaryCodec>> lastObj;\nstatic codec::BinaryCodec* newAny(const std::string& name) {\n  auto it = lastObj.find(name);\n  if (reuse && it != lastObj.end()) return it->second.get();\n  lastObj[name] = newAny0(name);\n  return lastObj[name].get();\n}\n")
 	b.WriteString("static std::unique_ptr<codec::BinaryCodec> newAny0(const std::string& name) {\n")
 	for _, k := range p.Packets {
-		fmt.Fprintf(&b, "  if (name == %q) return std::make_unique<%s>();\n", k.Name, k.Name)
+		fmt.Fprintf(&b, "  if (name == %q) return std::make_unique<%s>();\n", k.Name, strcase.ToCamel(k.Name))
 	}
 	b.WriteString("  throw std::runtime_error(\"packet \" + name);\n}\n")
 	b.WriteString("static void dumpAny(const codec::BinaryCodec* v, std::vector<std::string>& out) {\n")
 	for _, k := range p.Packets {
-		fmt.Fprintf(&b, "  if (auto x = dynamic_cast<const %s*>(v)) { out.push_back(%q); dump_%s(*x, out); return; }\n", k.Name, k.Name, k.Name)
+		fmt.Fprintf(&b, "  if (auto x = dynamic_cast<const %s*>(v)) { out.push_back(%q); dump_%s(*x, out); return; }\n", strcase.ToCamel(k.Name), k.Name, k.Name)
 	}
 	b.WriteString("  out.push_back(\"?unknown\");\n}\n")
 	b.WriteString("static void setChecksums(bool on) {\n  ChecksumServiceContext::instance().clear();\n  if (!on) return;\n")
